@@ -56,8 +56,8 @@ class CSSParser(object):
         if loglevel is not None:
             css_parser.log.setLevel(loglevel)
 
-        # remember global setting
-        self.__globalRaising = css_parser.log.raiseExceptions
+        # the global setting is remembered per parse call (see __parseSetting)
+        self.__globalRaising = []
         if raiseExceptions:
             self.__parseRaising = raiseExceptions
         else:
@@ -74,11 +74,12 @@ class CSSParser(object):
         init parameter ``raiseExceptions``
         """
         if parse:
-            # what the caller has set by now (not when this parser was made)
-            self.__globalRaising = css_parser.log.raiseExceptions
+            # what the caller has set by now (not when this parser was made);
+            # kept per call: a fetcher may parse with this very parser
+            self.__globalRaising.append(css_parser.log.raiseExceptions)
             css_parser.log.raiseExceptions = self.__parseRaising
         else:
-            css_parser.log.raiseExceptions = self.__globalRaising
+            css_parser.log.raiseExceptions = self.__globalRaising.pop()
 
     def parseStyle(self, cssText, encoding='utf-8', validate=None):
         """Parse given `cssText` which is assumed to be the content of
